@@ -76,6 +76,13 @@ def srv_from_report(res, srv, dheat_tables):
 
 
 def has_report(res):
+    """Did the run end with its product - the algorithm report, the policy verdict, the written policy?  Read off the report's
+    structure (section tags, JSON keys) and, for policy runs, off the exit status - not off the wording of any message."""
+    argv = res.get('argv') or []
+    if '-M' in argv or '--make-policy' in argv:
+        return res.get('exit') == 0                      # the policy file was written
+    if '-P' in argv or '--policy' in argv:
+        return res.get('exit') in (0, 3)                 # a verdict (passed / failed) was reached
     out = res['stdout']
     return ('(kex) ' in out or '(key) ' in out or '(enc) ' in out or '(mac) ' in out or '"kex":' in out
             or 'Result:' in out or '"passed":' in out or 'Wrote policy to' in out)
